@@ -165,6 +165,30 @@ example :
         [0x06, 0x10, 0x09, 0x54, 0x00, 0x08, 0x00, 0x04] := by
   decide +kernel
 
+/-- **The header is part of the authenticated data.**  `decrypt_frame` computes the MAC over the header octets of the
+frame object it is handed (`decryptFrame` takes them from `f.header`): the genuine body and MAC under ANY other
+header — a changed total length, another service type — is rejected, given no collision of the tag function on the pair. -/
+theorem header_change_rejected (E : BlockFn) (hE : E.Len16) (key : Bytes) (sid : Nat) (seq serial tag payload hdr' : Bytes)
+    (sid' : Nat) (hne : hdr' ≠ wrapHeader payload.length)
+    (hNoColl : ∀ p', tagOf E key { (encryptFrame E key sid seq serial tag payload).1 with header := hdr' } p' ≠
+      tagOf E key (encryptFrame E key sid seq serial tag payload).1 payload) :
+    ∀ p, decryptFrame E key sid' { (encryptFrame E key sid seq serial tag payload).1 with header := hdr' }
+      (encryptFrame E key sid seq serial tag payload).2.1 (encryptFrame E key sid seq serial tag payload).2.2 ≠ .ok p := by
+  apply tamper_rejected E hE key sid seq serial tag payload _ _ sid'
+  · intro h
+    have := congrArg (fun x => x.1.header) h
+    exact hne this
+  · intro p' _
+    exact hNoColl p'
+
+/-- satisfiable for AES-128: the genuine fields under a header whose total length has one bit flipped give another tag -/
+example :
+    tagOf AES (List.replicate 16 7) ⟨[0x06, 0x10, 0x09, 0x50, 0x00, 0x2f], [0, 1], [0, 0, 0, 0, 0, 4], [0, 0xfa, 1, 2, 3, 4], [0, 0]⟩
+        [0x06, 0x10, 0x09, 0x54, 0x00, 0x08, 0x00, 0x04] ≠
+    tagOf AES (List.replicate 16 7) ⟨wrapHeader 8, [0, 1], [0, 0, 0, 0, 0, 4], [0, 0xfa, 1, 2, 3, 4], [0, 0]⟩
+        [0x06, 0x10, 0x09, 0x54, 0x00, 0x08, 0x00, 0x04] := by
+  decide +kernel
+
 /-- A wrapper for another session id is rejected (unconditionally): this is the explicit check of `decrypt_frame`. -/
 theorem other_session_rejected (E : BlockFn) (key : Bytes) (sid' : Nat) (f : Fields) (enc mac : Bytes)
     (h : toNatBE f.sid ≠ sid') : decryptFrame E key sid' f enc mac = .error .sid := by
